@@ -193,3 +193,21 @@ Proof.
   rewrite Z.div_small; [reflexivity|]. split; [lia|].
   apply Z.lt_le_trans with (256 ^ Z.of_nat n); [lia|]. apply Z.pow_le_mono_r; lia.
 Qed.
+
+(* a property of the chaining value kept by the compression function is kept by absorption *)
+Lemma absorb'_inv {St} (B : nat) (Bpos : (0 < B)%nat) (compress : St -> list Z -> St) (P : St -> Prop) :
+  (forall st b, P st -> P (compress st b)) -> forall l st, P st -> P (fst (absorb' B compress st l)).
+Proof.
+  intros Hc l. induction l as [l H|l H IH] using (absorb'_ind B Bpos); intros st Hst.
+  - rewrite (absorb'_short B Bpos compress st l H). exact Hst.
+  - rewrite (absorb'_step B Bpos compress st l H). apply IH. now apply Hc.
+Qed.
+
+Lemma map2_length {A B C} (f : A -> B -> C) : forall l m, length l = length m -> length (map2 f l m) = length l.
+Proof. induction l; destruct m; cbn [map2 length]; intros; try lia. rewrite IHl; lia. Qed.
+
+Lemma fold_left_inv {A B} (f : A -> B -> A) (P : A -> Prop) : (forall a x, P a -> P (f a x)) -> forall l a, P a -> P (fold_left f l a).
+Proof. intros H. induction l; intros; cbn [fold_left]; auto. Qed.
+
+Lemma flat_map_ext' {A B} (f g : A -> list B) l : (forall x, f x = g x) -> flat_map f l = flat_map g l.
+Proof. intros H. induction l; cbn [flat_map]; [reflexivity|]. now rewrite H, IHl. Qed.
